@@ -121,6 +121,16 @@ var rewriteNow, rewriteTLS bool
 
 func rewriteCalls(n ast.Node) {
 	ast.Inspect(n, func(x ast.Node) bool {
+		// gtime.CurrUnixTime (and the date strings): TarsGo's cached clock, kept by a goroutine that
+		// package gtime starts at init, outside the bubble, on the real clock. Read through
+		// simrt.Gtime() it is what that goroutine would have stored at the last whole second of
+		// the simulated clock.
+		if se, ok := x.(*ast.SelectorExpr); ok {
+			if id, ok := se.X.(*ast.Ident); ok && id.Name == "gtime" && strings.HasPrefix(se.Sel.Name, "Curr") {
+				se.X = &ast.CallExpr{Fun: &ast.SelectorExpr{X: ast.NewIdent("simrt"), Sel: ast.NewIdent("Gtime")}}
+				return false
+			}
+		}
 		c, ok := x.(*ast.CallExpr)
 		if !ok {
 			return true
@@ -623,7 +633,7 @@ func main() {
 					t.Body.List = processList(t.Body.List)
 				}
 			}
-			usesOS, usesTime := false, false
+			usesOS, usesTime, usesGtime := false, false, false
 			if netSet[dir] {
 				for _, im := range f.Imports {
 					if im.Path.Value == `"net"` {
@@ -638,6 +648,9 @@ func main() {
 				}
 				if im.Path.Value == `"time"` && im.Name == nil {
 					usesTime = true
+				}
+				if strings.HasSuffix(im.Path.Value, `/util/gtime"`) && im.Name == nil {
+					usesGtime = true
 				}
 			}
 			added := false
@@ -668,6 +681,9 @@ func main() {
 			}
 			if usesTime {
 				buf.WriteString("var _ = time.Now\n")
+			}
+			if usesGtime {
+				buf.WriteString("var _ = gtime.CurrUnixTime\n")
 			}
 			dst := filepath.Join(*outdir, "inst", rel)
 			os.MkdirAll(filepath.Dir(dst), 0755)
